@@ -119,6 +119,53 @@ func c10GenProfileSized(r *Rng, ns, depth int) *profile.Profile {
 	return p
 }
 
+// c10GenProfileLarge: a profile whose serialization exceeds minBytes (size thresholds in the code under
+// test — 1 MiB, 64 KiB — need at least one LARGE input per stream): the usual small profile plus thousands
+// of functions with long names in packages pkg00…pkg19, one location each, and samples over them.
+func c10GenProfileLarge(r *Rng, minBytes int) *profile.Profile {
+	p := c10GenProfileSized(r, 20, 6)
+	pad := strings.Repeat("VeryLongGeneratedFunctionNameSegment", 4)
+	for n := 4000; ; n += 2000 {
+		base := len(p.Function)
+		for i := 0; i < n; i++ {
+			id := uint64(len(p.Function) + 1)
+			name := fmt.Sprintf("pkg%02d.%s_%d", i%20, pad, base+i)
+			fn := &profile.Function{ID: id, Name: name, SystemName: name, Filename: fmt.Sprintf("%s/src/pkg%02d/file_%s_%d.go", c10PathPrefix, i%20, pad[:40], (base+i)%97), StartLine: int64(1 + i%50)}
+			p.Function = append(p.Function, fn)
+			l := &profile.Location{ID: uint64(len(p.Location) + 1), Mapping: p.Mapping[i%2], Address: p.Mapping[i%2].Start + 0x10000 + uint64(16*(base+i))}
+			l.Line = []profile.Line{{Function: fn, Line: fn.StartLine + 3}}
+			p.Location = append(p.Location, l)
+		}
+		first := len(p.Location) - n
+		for i := 0; i < n/2; i++ {
+			s := &profile.Sample{}
+			for d, k := 0, 2+r.Intn(6); d < k; d++ {
+				s.Location = append(s.Location, p.Location[first+r.Intn(n)])
+			}
+			s.Location = append(s.Location, p.Location[0])
+			for range p.SampleType {
+				s.Value = append(s.Value, int64(1+r.Intn(5000)))
+			}
+			if r.Chance(50) {
+				s.Label = map[string][]string{"req": {[]string{"a", "b", "c"}[r.Intn(3)]}}
+			}
+			p.Sample = append(p.Sample, s)
+		}
+		if b, _ := c10WriteU(p); len(b) >= minBytes {
+			return p
+		}
+	}
+}
+
+// c10LargeWebRequests: views of a large profile, each with a DIFFERENT focus/ignore/hide so that a profile
+// shared between overlapping requests is visible in every one of them.
+func c10LargeWebRequests(r *Rng) (string, []string) {
+	pk := func() string { return fmt.Sprintf("pkg%02d", r.Intn(20)) }
+	req := r.Pick([]string{"/top?f=", "/top?i=", "/flamegraph?f=", "/top?h="}) + pk()
+	others := []string{"/top?f=" + pk(), "/flamegraph?f=" + pk(), "/top?i=" + pk() + "&n=40", "/top?h=pkg0&f=" + pk()}
+	return req, others
+}
+
 // c10SourceTrees: the scratch source trees of a case, relative to the case directory. The profile's file
 // names are absolute multi-component build paths ("/build/remote/checkout/proj/src/app/main.go"); pprof
 // finds sources by (a) trim_path, or (b) the heuristic "strip everything up to /<basename of a source_path
@@ -532,6 +579,26 @@ func c10RepeatScripts() [][]c10Line {
 	}
 	between := []string{"traces", "focus=main", "top", "focus=", "tree", "unit=ms", "tags", "nodecount=4", "peek .", "nodecount=-1", "granularity=lines", "granularity="}
 	var out [][]c10Line
+	// built-in, non-report commands after each other in every order: the list twice forwards and twice
+	// backwards, so that for every ordered pair (a, b) some probed b follows an a
+	builtins := []string{"help", "o", "help top", "options", "help focus", "nodecount", "help granularity", "help lines", "cum", "help nosuch"}
+	for _, rev := range []bool{false, true} {
+		var ls []c10Line
+		for round := 0; round < 2; round++ {
+			for i := range builtins {
+				t := builtins[i]
+				if rev {
+					t = builtins[len(builtins)-1-i]
+				}
+				intent := "builtin"
+				if t == "nodecount" || t == "cum" {
+					intent = "assign" // a bare option name takes the name=value branch (prints an error / its usage)
+				}
+				ls = append(ls, c10Line{Text: t, Intent: intent})
+			}
+		}
+		out = append(out, ls)
+	}
 	for gi, g := range groups {
 		var ls []c10Line
 		add := func(t string) {
